@@ -1,9 +1,13 @@
 (* C13 - access decisions equal the declared grant/revoke semantics, default deny.
-   Statements only; every proof is `exact <lemma>` into C13_ACL/{Proofs,Roles}.v.
-   Model: C13_ACL/Model.v (pkg/appdef/acl as the code is).  Names are numbered in QName order;
-   fields 0..4 are the system fields. *)
+   Statements only; every proof is `exact <lemma>` into C13_ACL/{Proofs,Roles,Closure,Link}.v.
+   Model: C13_ACL/Model.v (pkg/appdef/acl).  Names are numbered in QName order; fields 0..4 are
+   the system fields.  The model takes three flags the translator reads from the Go source; the
+   main theorems below are about the code as it is now (all three defects C13-F1..F4 repaired:
+   commits f6551f282, f6b8b67e8, feabf8710) and rest on the three side-condition lemmas, so that a
+   regression of any of the repairs re-opens them.  The shapes found before the repairs are kept
+   at the end as refutation witnesses about explicit flag values. *)
 From Coq Require Import List NArith Bool Relations.
-From V Require Import Lib.Check Gen.Params C13_ACL.Model C13_ACL.Proofs C13_ACL.Roles C13_ACL.Link.
+From V Require Import Lib.Check Gen.Params C13_ACL.Model C13_ACL.Proofs C13_ACL.Roles C13_ACL.Closure C13_ACL.Link.
 Import ListNotations.
 Local Open Scope N_scope.
 
@@ -12,26 +16,29 @@ Lemma ops_distinct : NoDup [acl_op_insert; acl_op_update; acl_op_activate; acl_o
 Proof. repeat constructor; cbn; intuition discriminate. Qed.
 Lemma five_system_fields : acl_sys_field_count = 5.
 Proof. reflexivity. Qed.
-
-(* The model is parametric in the three places where the code was found to violate the property
-   (findings C13-F1, F2/F3, F4): `found_cfg` is the code as first read, `cur_cfg` is what the
-   translator reads from the source now, so the statements marked "if repaired" apply to the code
-   as soon as the repair is in the source.  `chk` below is `c_chkfield`: the Allow branch adds
-   only fields the resource has. *)
+(* IsOperationAllowed expands the supplied roles over a snapshot of the slice (C13-F1 repaired) *)
+Lemma role_loop_iterates_snapshot : acl_roles_loop_aliased = false.
+Proof. reflexivity. Qed.
+(* the Allow branch adds only fields the resource has and takes the result from the map (C13-F4 repaired) *)
+Lemma grant_checks_field : acl_grant_checks_field = true.
+Proof. reflexivity. Qed.
+(* RecursiveRoleAncestors is one closure with a visited set (C13-F2/F3 repaired) *)
+Lemma role_ancestors_is_closure : acl_rra_closure = true.
+Proof. reflexivity. Qed.
 
 (* ===== the rule fold of checkOperationOnTypeForRoles ===== *)
 
-(* Per field, for every ordered rule list (= every schema: ancestors' rules first), operation,
-   resource with fields and role set: a field of the resource (without the check: any name) is in
-   the allowed-field map the code builds iff some matching grant covers it and no later matching
-   revoke covers it. *)
+(* For every ordered rule list (= every schema: ancestors' rules first), operation, resource with
+   fields and role set: the allowed-field map holds only fields of the resource, and a field is in
+   it iff some matching grant covers it and no later matching revoke covers it. *)
 Theorem fields_fold_is_last_rule_wins :
-  forall chk op t roles fs rules f, tflds t = Some fs -> chk = false \/ In f fs ->
-  (In f (snd (run chk op t roles rules)) <-> field_granted op t roles rules f).
-Proof. exact run_field_granted. Qed.
+  forall op t roles fs rules, tflds t = Some fs ->
+  incl (snd (run acl_grant_checks_field op t roles rules)) fs /\
+  forall f, In f fs -> (In f (snd (run acl_grant_checks_field op t roles rules)) <-> field_granted op t roles rules f).
+Proof. exact (run_cur grant_checks_field). Qed.
 
-(* Type-level result of the fold: some name is in the map (resources with fields) / the last
-   matching rule is a grant (commands, queries). *)
+(* Type-level result of the fold: the map is non-empty (resources with fields) / the last matching
+   rule is a grant (commands, queries). *)
 Theorem fold_result_with_fields :
   forall chk op t roles fs rules, tflds t = Some fs -> fs <> [] ->
   fst (run chk op t roles rules) = negb (is_nil (snd (run chk op t roles rules))).
@@ -41,38 +48,14 @@ Theorem fold_result_without_fields :
   (fst (run chk op t roles rules) = true <-> field_granted op t roles rules 0).
 Proof. intros chk op t roles rules H. rewrite (run_result_nofields chk op t roles 0 rules H). apply spec_field_granted. Qed.
 
-(* FULL STATEMENT (refuted by the code as found, finding C13-F4):
-     forall sysr op t fld roles rules, (fld within the fields of t) ->
-       (decide false sysr op t fld roles rules = true <-> declared_allowed sysr op t fld roles rules).
-   A matching grant may list fields the resource does not have (a rule of an ancestor workspace
-   whose TYPES filter also matches a descendant's table); the code puts them into the map and
-   then compares the map size with the field count. *)
-Theorem decision_refuted_without_field_check :
-  exists sysr op t fld roles rules, (forall fs, tflds t = Some fs -> NoDup fs /\ incl fld fs) /\
-    decide false sysr op t fld roles rules = true /\ ~ declared_allowed sysr op t fld roles rules.
-Proof.
-  exists 99, acl_op_insert, (mkTyp 14 8 21 [] (Some [0; 1; 4; 5]) true false false true [1; 2; 3; 4; 5]), [1], [11],
-    [mkRule [acl_op_insert] true (FTypes [8]) [6; 7; 8] 11; mkRule [acl_op_insert] true (FQNames [14]) [5] 11].
-  split; [|split].
-  - intros fs E. inversion E; subst. split; [repeat constructor; cbn; intuition discriminate|].
-    intros x [<-|[]]. cbn. auto.
-  - vm_compute. reflexivity.
-  - intros H. apply spec_decide_declared in H. vm_compute in H. discriminate.
-Qed.
-
-(* The decision is the declared one - system role, or some field of the resource granted and every
-   requested field granted (last rule wins per field, default deny) - for every rule list when the
-   Allow branch checks the fields (repaired code), and for the code as found (PARTIAL) under the
-   extra hypothesis `rules_wf`, which is exactly what excludes the witness: matching grants list
-   only fields of the resource. *)
+(* The decision is the declared one, for every rule list, operation, resource, requested field
+   list within the resource and (expanded) role set: system role, or some field of the resource
+   granted and every requested field granted (last rule wins per field, default deny). *)
 Theorem decision_is_declared_semantics :
-  forall chk sysr op t fld roles rules,
-  match tflds t with
-  | Some fs => NoDup fs /\ fs <> [] /\ incl fld fs /\ (chk = true \/ rules_wf op t roles fs rules)
-  | None => True
-  end ->
-  (decide chk sysr op t fld roles rules = true <-> declared_allowed sysr op t fld roles rules).
-Proof. exact decide_declared. Qed.
+  forall sysr op t fld roles rules,
+  match tflds t with Some fs => NoDup fs /\ fs <> [] /\ incl fld fs | None => True end ->
+  (decide acl_grant_checks_field sysr op t fld roles rules = true <-> declared_allowed sysr op t fld roles rules).
+Proof. exact (decide_cur grant_checks_field). Qed.
 
 (* Nothing is allowed without a matching grant reaching one of the (expanded) caller roles. *)
 Theorem default_deny :
@@ -107,13 +90,94 @@ Theorem role_order_irrelevant :
   is_allowed_gen c S sysr w op res fld rol = is_allowed_gen c S sysr w op res fld rol'.
 Proof. exact role_order_irrelevant. Qed.
 
-(* ===== role expansion ===== *)
+(* ===== role inheritance ===== *)
 
-(* FULL STATEMENT (refuted by the code as found, finding C13-F1):
-     forall closure S w rol, expand_gen true closure S w rol = union_expand closure S w (sfrom rol)
-   i.e. every supplied role is expanded by its recursive ancestors.  The loop ranges over the
-   slice it inserts into; with spare capacity (3, 5, 6, 7 ... distinct roles) an insertion shifts
-   the elements still to be visited and a supplied role is skipped. *)
+(* `reach S w` = reflexive-transitive closure of the inheritance declarations (principal, inherited
+   role) of the workspace w and all its ancestors (`inh_edges`, each rule's filter evaluated
+   over the types visible where it is declared). *)
+
+(* RecursiveRoleAncestors always returns, and returns exactly the roles reachable from the role:
+   sound and complete, cycles included. *)
+Theorem role_ancestors_exact :
+  forall S r w, exists l, rra_any acl_rra_closure S r w = Some l /\ forall x, In x l <-> reach S w r x.
+Proof. exact (rra_cur role_ancestors_is_closure). Qed.
+Theorem role_ancestors_sound :
+  forall closure S r w l, rra_any closure S r w = Some l -> forall x, In x l -> inherits_star S w r x.
+Proof. exact rra_any_sound. Qed.
+
+(* The role set IsOperationAllowed decides with: the supplied names plus everything reachable from
+   each supplied role - every supplied role is expanded, whatever their number and order. *)
+Theorem expansion_exact :
+  forall S w rol, exists l, expand S w rol = Some l /\
+  forall x, In x l <-> In x rol \/ exists r, In r rol /\ is_role S w r = true /\ reach S w r x.
+Proof. exact (expand_cur role_loop_iterates_snapshot role_ancestors_is_closure). Qed.
+Theorem expansion_sound :
+  forall closure S w r0 l, union_expand closure S w r0 = Some l ->
+  forall x, In x l -> exists r, In r r0 /\ inherits_star S w r x.
+Proof. exact union_expand_sound. Qed.
+
+(* ===== IsOperationAllowed end to end ===== *)
+
+(* A well-formed request (resource visible, operation applicable, fields of the resource, at least
+   one role) is answered allow or deny - never an error, never no answer - and allow iff the
+   declared grants/revokes of the workspace and its ancestors allow it for the supplied roles and
+   everything they inherit. *)
+Theorem access_decision_is_declared :
+  forall S sysr w op res fld rol t,
+  find_type S w res = Some t -> validate op t fld = None -> rol <> [] ->
+  match tflds t with Some fs => NoDup fs /\ fs <> [] /\ incl fld fs | None => True end ->
+  exists roles,
+    (forall x, In x roles <-> In x rol \/ exists r, In r rol /\ is_role S w r = true /\ reach S w r x) /\
+    (is_allowed S sysr w op res fld rol = OAllow \/ is_allowed S sysr w op res fld rol = ODeny) /\
+    (is_allowed S sysr w op res fld rol = OAllow <-> declared_allowed sysr op t fld roles (all_rules S w)).
+Proof. exact (is_allowed_cur role_loop_iterates_snapshot grant_checks_field role_ancestors_is_closure). Qed.
+
+(* ===== link to the trace oracle ===== *)
+
+(* Whatever the configuration: if a request is answered as the model answers, the model's role
+   expansion for it is the declared inheritance closure (F1-F3 do not strike) and - without the
+   field check - the matching grants list only fields of the resource (F4 does not strike), then
+   the answer passes the oracle `sat_query` used by `satisfies`: errors exactly for malformed
+   requests, otherwise the declared decision. *)
+Theorem model_answer_satisfies_oracle :
+  forall c S sysr q,
+  qout q = is_allowed_gen c S sysr (qws q) (qop q) (qres q) (qflds q) (qroles q) ->
+  (is_nil (qroles q) = false ->
+   expand_gen (c_aliased c) (c_closure c) S (qws q) (qroles q) = Some (spec_roles S (qws q) (qroles q))) ->
+  (forall t fs, find_type S (qws q) (qres q) = Some t -> tflds t = Some fs ->
+     NoDup fs /\ fs <> [] /\
+     (c_chkfield c = true \/ rules_wf (qop q) t (spec_roles S (qws q) (qroles q)) fs (all_rules S (qws q)))) ->
+  sat_query S sysr q = true.
+Proof. exact sat_query_link. Qed.
+
+(* ===== the shapes found before the repairs (kept as witnesses over explicit flag values) ===== *)
+
+(* C13-F4: without the field check a matching grant may list fields the resource does not have;
+   they entered the map and its size was compared with the field count. *)
+Theorem decision_refuted_without_field_check :
+  exists sysr op t fld roles rules, (forall fs, tflds t = Some fs -> NoDup fs /\ incl fld fs) /\
+    decide false sysr op t fld roles rules = true /\ ~ declared_allowed sysr op t fld roles rules.
+Proof.
+  exists 99, acl_op_insert, (mkTyp 14 8 21 [] (Some [0; 1; 4; 5]) true false false true [1; 2; 3; 4; 5]), [1], [11],
+    [mkRule [acl_op_insert] true (FTypes [8]) [6; 7; 8] 11; mkRule [acl_op_insert] true (FQNames [14]) [5] 11].
+  split; [|split].
+  - intros fs E. inversion E; subst. split; [repeat constructor; cbn; intuition discriminate|].
+    intros x [<-|[]]. cbn. auto.
+  - vm_compute. reflexivity.
+  - intros H. apply spec_decide_declared in H. vm_compute in H. discriminate.
+Qed.
+(* ... and what held then: the declared decision under `rules_wf` (matching grants list only fields of the resource) *)
+Theorem decision_is_declared_semantics_either_shape :
+  forall chk sysr op t fld roles rules,
+  match tflds t with
+  | Some fs => NoDup fs /\ fs <> [] /\ incl fld fs /\ (chk = true \/ rules_wf op t roles fs rules)
+  | None => True
+  end ->
+  (decide chk sysr op t fld roles rules = true <-> declared_allowed sysr op t fld roles rules).
+Proof. exact decide_declared. Qed.
+
+(* C13-F1: the loop ranged over the slice it inserted into; with spare capacity (3, 5, 6, 7 ...
+   distinct roles) an insertion shifted the elements still to be visited. *)
 Theorem expansion_refuted_when_aliased :
   exists S w rol, expand_gen true false S w rol <> union_expand false S w (sfrom rol).
 Proof.
@@ -124,31 +188,13 @@ Proof.
     20, [11; 12; 13].
   vm_compute. discriminate.
 Qed.
-(* PARTIAL: a full slice (1, 2, 4, 8 ... distinct supplied roles) is never shifted. *)
 Theorem expansion_partial_full_slice :
   forall closure S w rol, cap_for (length (sfrom rol)) = length (sfrom rol) ->
   expand_gen true closure S w rol = union_expand closure S w (sfrom rol).
 Proof. intros closure S w rol H. rewrite (expand_full_slice true closure S w rol H). apply expand_unaliased_union. Qed.
-(* the statement at full strength for a loop over a snapshot; `expand` is `expand_gen` of the
-   flags the translator reads from the source, so it holds for the code once F1 is repaired *)
-Theorem expansion_complete_if_loop_not_aliased :
-  acl_roles_loop_aliased = false -> forall S w rol, expand S w rol = union_expand acl_rra_closure S w (sfrom rol).
-Proof. intros H S w rol. unfold expand. rewrite H. apply expand_unaliased_union. Qed.
 
-(* Nothing enters the expanded role set without a chain of inheritance declarations, visible in
-   the workspace or an ancestor, from a supplied role (either shape of RecursiveRoleAncestors). *)
-Theorem expansion_sound :
-  forall closure S w r0 l, union_expand closure S w r0 = Some l ->
-  forall x, In x l -> exists r, In r r0 /\ inherits_star S w r x.
-Proof. exact union_expand_sound. Qed.
-Theorem role_ancestors_sound :
-  forall closure S r w l, rra_any closure S r w = Some l -> forall x, In x l -> inherits_star S w r x.
-Proof. exact rra_any_sound. Qed.
-
-(* FULL STATEMENT (refuted by the code as found, finding C13-F2):
-     forall S r w l, rra_any false S r w = Some l -> forall x, inherits_star S w r x -> In x l.
-   An inherited role is only expanded in the workspace that declares the inheritance and above.
-   (F3: with a cycle `rra_any false` is None - the Go recursion does not return.) *)
+(* C13-F2: an inherited role was only expanded in the workspace declaring the inheritance and above;
+   C13-F3: with a cycle the recursion did not return. *)
 Theorem role_ancestors_complete_refuted :
   exists S r w l x, rra_any false S r w = Some l /\ inherits_star S w r x /\ ~ In x l.
 Proof.
@@ -174,29 +220,10 @@ Proof.
             [mkWs 20 [] [mkRule [acl_op_inherits] true (FQNames [11]) [] 10; mkRule [acl_op_inherits] true (FQNames [10]) [] 11]]), 10, 20.
   split; [vm_compute; reflexivity|]. eexists. vm_compute. reflexivity.
 Qed.
-(* PARTIAL: inside a workspace without ancestors the result, when there is one, is the closure. *)
 Theorem role_ancestors_complete_partial :
   forall S w, ancs S w = [] -> forall r x, inherits_star S w r x ->
   forall fuel l, rra fuel S r w = Some l -> In x l.
 Proof. intros S w H r x Hs fuel l E. exact (rra_flat_complete S w H r x Hs fuel [] l E). Qed.
-
-(* ===== link to the trace oracle ===== *)
-
-(* Whatever the configuration: if a request is answered as the model answers, the model's role
-   expansion for it is the declared inheritance closure (F1-F3 do not strike) and - without the
-   field check - the matching grants list only fields of the resource (F4 does not strike), then
-   the answer passes the oracle `sat_query` used by `satisfies`: errors exactly for malformed
-   requests, otherwise the declared decision. *)
-Theorem model_answer_satisfies_oracle :
-  forall c S sysr q,
-  qout q = is_allowed_gen c S sysr (qws q) (qop q) (qres q) (qflds q) (qroles q) ->
-  (is_nil (qroles q) = false ->
-   expand_gen (c_aliased c) (c_closure c) S (qws q) (qroles q) = Some (spec_roles S (qws q) (qroles q))) ->
-  (forall t fs, find_type S (qws q) (qres q) = Some t -> tflds t = Some fs ->
-     NoDup fs /\ fs <> [] /\
-     (c_chkfield c = true \/ rules_wf (qop q) t (spec_roles S (qws q) (qroles q)) fs (all_rules S (qws q)))) ->
-  sat_query S sysr q = true.
-Proof. exact sat_query_link. Qed.
 
 (* ===== non-vacuity ===== *)
 Definition ex_doc := mkTyp 14 5 20 [] (Some [0; 1; 4; 5; 6]) true false false true [1; 2; 3; 4; 5].
@@ -259,6 +286,22 @@ Example expansion_nonvacuous :
   rra_any false ex_schema 13 20 = Some [13; 15] /\ rra_any true ex_schema 13 20 = Some [13; 15] /\ ancs ex_schema 20 = [].
 Proof. vm_compute. repeat split. Qed.
 
+Example access_decision_nonvacuous :
+  find_type ex_schema 20 14 = Some (mkTyp 14 5 20 [] (Some [0; 1; 4; 5]) true false false true [1; 2; 3; 4; 5]) /\
+  validate acl_op_select (mkTyp 14 5 20 [] (Some [0; 1; 4; 5]) true false false true [1; 2; 3; 4; 5]) [1; 5] = None /\
+  is_allowed ex_schema 99 20 acl_op_select 14 [1; 5] [11; 12; 13] = OAllow /\
+  is_allowed ex_schema 99 20 acl_op_select 14 [1; 5] [11; 12] = ODeny /\
+  expand ex_schema 20 [11; 12; 13] = Some [10; 11; 12; 13; 15] /\
+  rra_any acl_rra_closure ex_schema 13 20 = Some [13; 15].
+Proof. vm_compute. repeat split. Qed.
+
+Example role_cycle_nonvacuous :
+  let S := mkSchema [ex_role 10; ex_role 11; mkTyp 14 5 20 [] (Some [0; 1; 4; 5]) true false false true [1; 2; 3; 4; 5]]
+            [mkWs 20 [] [mkRule [acl_op_inherits] true (FQNames [11]) [] 10; mkRule [acl_op_inherits] true (FQNames [10]) [] 11;
+                         mkRule [acl_op_select] true (FQNames [14]) [] 11]] in
+  rra_any acl_rra_closure S 10 20 = Some [10; 11] /\ is_allowed S 99 20 acl_op_select 14 [] [10] = OAllow.
+Proof. vm_compute. repeat split. Qed.
+
 Example link_nonvacuous :
   let q := mkQ 20 acl_op_select 14 [1; 5] [13; 10; 11; 12] OAllow in
   qout q = is_allowed_gen found_cfg ex_schema 99 20 acl_op_select 14 [1; 5] [13; 10; 11; 12] /\
@@ -268,11 +311,9 @@ Example link_nonvacuous :
   sat_query ex_schema 99 (mkQ 20 acl_op_select 14 [7] [13] ODeny) = false.
 Proof. vm_compute. repeat split. Qed.
 
-Print Assumptions model_answer_satisfies_oracle.
 Print Assumptions fields_fold_is_last_rule_wins.
 Print Assumptions fold_result_with_fields.
 Print Assumptions fold_result_without_fields.
-Print Assumptions decision_refuted_without_field_check.
 Print Assumptions decision_is_declared_semantics.
 Print Assumptions default_deny.
 Print Assumptions system_role_allows.
@@ -280,11 +321,16 @@ Print Assumptions requested_fields_subset.
 Print Assumptions unrelated_rules_irrelevant.
 Print Assumptions same_matching_rules_same_decision.
 Print Assumptions role_order_irrelevant.
+Print Assumptions role_ancestors_exact.
+Print Assumptions role_ancestors_sound.
+Print Assumptions expansion_exact.
+Print Assumptions expansion_sound.
+Print Assumptions access_decision_is_declared.
+Print Assumptions model_answer_satisfies_oracle.
+Print Assumptions decision_refuted_without_field_check.
+Print Assumptions decision_is_declared_semantics_either_shape.
 Print Assumptions expansion_refuted_when_aliased.
 Print Assumptions expansion_partial_full_slice.
-Print Assumptions expansion_complete_if_loop_not_aliased.
-Print Assumptions expansion_sound.
-Print Assumptions role_ancestors_sound.
 Print Assumptions role_ancestors_complete_refuted.
 Print Assumptions role_ancestors_diverge_on_cycle.
 Print Assumptions role_ancestors_complete_partial.
